@@ -27,6 +27,7 @@ import (
 	"flag"
 	"fmt"
 	"io"
+	"log/slog"
 	"math"
 	"math/rand"
 	"os"
@@ -37,6 +38,7 @@ import (
 	"sort"
 	"strconv"
 	"strings"
+	"sync"
 	"syscall"
 	"testing"
 	"testing/synctest"
@@ -62,7 +64,52 @@ import (
 var (
 	tier    = flag.String("tier", "quick", "quick | thorough")
 	workDir = flag.String("work", "", "scratch directory (under /verif/out/C11)")
+	// a directory on ANOTHER file system than -work: it becomes $TMPDIR of everything that runs the real
+	// Maintenance, so that a temporary file that is not created next to its target cannot be renamed onto it
+	otherTmp = flag.String("othertmp", "", "directory on another file system than -work (becomes TMPDIR); empty = none available")
 )
+
+// crossDevice installs -othertmp as $TMPDIR of this process (and so of its children) after checking that
+// the environment is healthy: both directories writable, on different devices, rename works within -work.
+func crossDevice(t testing.TB, res *hx.Result) {
+	if *otherTmp == "" {
+		res.Notes = append(res.Notes, "no second file system: data directory and $TMPDIR are on one file system")
+		return
+	}
+	var a, b syscall.Stat_t
+	w := scratch(t, "")
+	if err := syscall.Stat(w, &a); err != nil {
+		t.Fatal(err)
+	}
+	if err := syscall.Stat(*otherTmp, &b); err != nil {
+		t.Fatal(err)
+	}
+	if a.Dev == b.Dev {
+		t.Fatalf("-othertmp %s is on the same device as %s", *otherTmp, w)
+	}
+	for _, d := range []string{w, *otherTmp} { // the environment is healthy: create, write, fsync, rename work
+		p := filepath.Join(d, "c11_probe")
+		f, err := os.Create(p + ".tmp")
+		if err == nil {
+			_, err = f.Write(make([]byte, 1<<16))
+		}
+		if err == nil {
+			err = f.Sync()
+		}
+		if err == nil {
+			err = f.Close()
+		}
+		if err == nil {
+			err = os.Rename(p+".tmp", p)
+		}
+		if err != nil {
+			t.Fatalf("the scratch directory %s is not usable: %v", d, err)
+		}
+		os.Remove(p)
+	}
+	os.Setenv("TMPDIR", *otherTmp)
+	res.Count("data_dir_and_tmpdir_on_different_file_systems", 1)
+}
 
 const unitsPer = 4 // U of spec/mc/MC_Snapshot.tla: boundary, +1 byte, mid-record, next boundary-1
 
@@ -99,6 +146,30 @@ type handle interface {
 	probe(r rec) string            // "" if the record still has its effect (mutes / is returned by Query)
 	mutate(i int) error            // one API write (used between snapshots)
 	maint() (passes, errs float64) // maintenance passes run / failed (the store's own metrics)
+	lastError() string             // the last error the store logged ("" = none)
+}
+
+// errLog keeps the error records a store logs (Maintenance only logs its failures).
+type errLog struct {
+	mu   sync.Mutex
+	last string
+}
+
+func (e *errLog) Enabled(_ context.Context, l slog.Level) bool { return l >= slog.LevelError }
+func (e *errLog) Handle(_ context.Context, r slog.Record) error {
+	msg := r.Message
+	r.Attrs(func(a slog.Attr) bool { msg += fmt.Sprintf(" %s=%v", a.Key, a.Value); return true })
+	e.mu.Lock()
+	e.last = msg
+	e.mu.Unlock()
+	return nil
+}
+func (e *errLog) WithAttrs([]slog.Attr) slog.Handler { return e }
+func (e *errLog) WithGroup(string) slog.Handler      { return e }
+func (e *errLog) get() string {
+	e.mu.Lock()
+	defer e.mu.Unlock()
+	return e.last
 }
 
 // counter reads a counter of a store's metrics registry.
@@ -307,11 +378,16 @@ type silH struct {
 	s   *silence.Silences
 	mut *silence.Silencer
 	reg *prometheus.Registry
+	el  *errLog
 }
+
+func (h *silH) lastError() string { return h.el.get() }
 
 func openSil(file string, rd io.Reader) (handle, error) {
 	reg := prometheus.NewRegistry()
+	el := &errLog{}
 	s, err := silence.New(silence.Options{
+		Logger:         slog.New(el),
 		SnapshotFile:   file,
 		SnapshotReader: rd,
 		Retention:      retention,
@@ -321,7 +397,7 @@ func openSil(file string, rd io.Reader) (handle, error) {
 	if err != nil {
 		return nil, err
 	}
-	return &silH{s: s, mut: silence.NewSilencer(s, promslog.NewNopLogger(), eventrecorder.NopRecorder()), reg: reg}, nil
+	return &silH{s: s, mut: silence.NewSilencer(s, promslog.NewNopLogger(), eventrecorder.NopRecorder()), reg: reg, el: el}, nil
 }
 
 func (h *silH) maint() (float64, float64) {
@@ -495,15 +571,19 @@ func craftEntry(j int) rec {
 type logH struct {
 	l   *nflog.Log
 	reg *prometheus.Registry
+	el  *errLog
 }
+
+func (h *logH) lastError() string { return h.el.get() }
 
 func openLog(file string, rd io.Reader) (handle, error) {
 	reg := prometheus.NewRegistry()
-	l, err := nflog.New(nflog.Options{SnapshotFile: file, SnapshotReader: rd, Retention: retention, Metrics: reg})
+	el := &errLog{}
+	l, err := nflog.New(nflog.Options{SnapshotFile: file, SnapshotReader: rd, Retention: retention, Metrics: reg, Logger: slog.New(el)})
 	if err != nil {
 		return nil, err
 	}
-	return &logH{l: l, reg: reg}, nil
+	return &logH{l: l, reg: reg, el: el}, nil
 }
 
 func (h *logH) maint() (float64, float64) {
@@ -785,6 +865,8 @@ type absOp struct {
 	Bytes int64  `json:"bytes,omitempty"`
 	Req   int64  `json:"req,omitempty"` // write: number of bytes the caller asked to write
 	Flags string `json:"flags,omitempty"`
+	DA    string `json:"da"` // directory of a ("data" = the directory of the snapshot)
+	DB    string `json:"db"` // rename: directory of b
 }
 
 type recording struct {
@@ -824,13 +906,17 @@ func parseStrace(path, dir, snap string) (raw []string, ops []absOp, err error) 
 	defer f.Close()
 	pending := map[string]string{}
 	fds := map[string]string{} // fd -> real path at open
-	isSnap := func(p string) bool { return p == snap || strings.HasPrefix(p, snap+".") }
 	abs := func(p string) string {
 		if !filepath.IsAbs(p) {
 			p = filepath.Join(dir, p)
 		}
 		return filepath.Clean(p)
 	}
+	// a snapshot file: the snapshot path, its siblings <path>.<suffix>, and - wherever it is - every
+	// file that the writer renames (or tries to rename) onto the snapshot path
+	renSrc := map[string]bool{}
+	isSnap := func(p string) bool { return p == snap || strings.HasPrefix(p, snap+".") || renSrc[p] }
+	var lines []string
 	sc := bufio.NewScanner(f)
 	sc.Buffer(make([]byte, 1<<20), 1<<24)
 	for sc.Scan() {
@@ -843,6 +929,17 @@ func parseStrace(path, dir, snap string) (raw []string, ops []absOp, err error) 
 			line = pending[m[1]] + m[3]
 			delete(pending, m[1])
 		}
+		lines = append(lines, line)
+		if m := reLine.FindStringSubmatch(line); m != nil && strings.HasPrefix(m[2], "rename") {
+			if strs := reQuoted.FindAllStringSubmatch(m[3], -1); len(strs) >= 2 && abs(strs[1][1]) == snap {
+				renSrc[abs(strs[0][1])] = true
+			}
+		}
+	}
+	if err := sc.Err(); err != nil {
+		return nil, nil, err
+	}
+	for _, line := range lines {
 		m := reLine.FindStringSubmatch(line)
 		if m == nil {
 			continue
@@ -858,6 +955,13 @@ func parseStrace(path, dir, snap string) (raw []string, ops []absOp, err error) 
 			if p, ok := fds[fd]; ok && isSnap(p) && (call == "write" || call == "pwrite64" || call == "writev") {
 				raw = append(raw, line)
 				ops = append(ops, absOp{Op: "writefail", A: p, Req: lastInt(args), Flags: strings.TrimSpace(m[5])})
+			}
+			// a failing rename of a snapshot file: the snapshot is not delivered
+			if strings.HasPrefix(call, "rename") && len(strs) >= 2 {
+				if a, b := abs(strs[0][1]), abs(strs[1][1]); isSnap(a) || isSnap(b) {
+					raw = append(raw, line)
+					ops = append(ops, absOp{Op: "renamefail", A: a, B: b, Flags: strings.TrimSpace(m[5])})
+				}
 			}
 			continue
 		}
@@ -924,7 +1028,7 @@ func parseStrace(path, dir, snap string) (raw []string, ops []absOp, err error) 
 			}
 		}
 	}
-	return raw, ops, sc.Err()
+	return raw, ops, nil
 }
 
 // lastInt is the last argument of a call (the byte count of write).
@@ -951,12 +1055,25 @@ func abstract(in []absOp, snap, cut string) (ops []absOp, recs []int, writes []i
 		names[p] = fmt.Sprintf("tmp%d", len(names))
 		return names[p]
 	}
+	dirs := map[string]string{filepath.Dir(snap): "data"}
+	dirName := func(p string) string {
+		if p == "" {
+			return ""
+		}
+		d := filepath.Dir(p)
+		if n, ok := dirs[d]; ok {
+			return n
+		}
+		dirs[d] = fmt.Sprintf("dir%d", len(dirs))
+		return dirs[d]
+	}
 	g := 0
 	for _, o := range in {
 		if o.Op == "create" || o.Op == "openw" {
 			g++
 			o.Op = "create"
 		}
+		o.DA, o.DB = dirName(o.A), dirName(o.B)
 		o.A, o.B = name(o.A), name(o.B)
 		o.G = g
 		if o.G == 0 {
@@ -1054,7 +1171,7 @@ func shapeErrors(ops []absOp) (errs []string) {
 		}
 	}
 	for g := 1; g <= maxG; g++ {
-		created, lastWrite, renameAt, failAt := "", -1, -1, -1
+		created, lastWrite, renameAt, failAt, renFail := "", -1, -1, -1, -1
 		var syncs []int
 		var stored int64
 		for i, o := range ops {
@@ -1067,6 +1184,8 @@ func shapeErrors(ops []absOp) (errs []string) {
 			switch {
 			case o.Op == "writefail" && failAt < 0:
 				failAt = i
+			case o.Op == "renamefail" && o.B == "final" && renFail < 0:
+				renFail = i
 			case o.Op == "create" && created == "":
 				created = o.A
 			case o.Op == "write" && o.A == created && o.Bytes > 0:
@@ -1090,6 +1209,12 @@ func shapeErrors(ops []absOp) (errs []string) {
 				errs = append(errs, fmt.Sprintf("%ssnapshot %d: its write failed (%s) after %d bytes were stored, and %s is then renamed onto the final name",
 					partialRename, g, ops[failAt].Flags, stored, created))
 			}
+			continue
+		}
+		if renameAt < 0 && renFail >= 0 {
+			o := ops[renFail]
+			errs = append(errs, fmt.Sprintf("snapshot %d: the rename of %s (directory %s) onto the final name (directory %s) fails with %s: the snapshot never appears under the final name",
+				g, created, o.DA, o.DB, o.Flags))
 			continue
 		}
 		if renameAt < 0 {
@@ -1116,6 +1241,7 @@ func shapeErrors(ops []absOp) (errs []string) {
 func TestRecordOps(t *testing.T) {
 	res := hx.NewResult()
 	defer res.Write()
+	crossDevice(t, res)
 	base := scratch(t, "rec")
 	var recsOut []recording
 	scns := []string{"one", "empty", "big", "seq", "wfail_tick", "wfail_shut"}
